@@ -41,7 +41,7 @@ FastaShapes == <<
 (* Shapes of the > 1 MiB files: "000000" is the serial number field that the harness *)
 (* overwrites with the rank of the record in the file.  Shape 1 is the filler.       *)
 FastaBigShapes == <<
-  FaRec("f000000",   "filler",   Rep("acgtgcatgactagctagcatgcatgcaacgttgca", 28), 17, "LF"),
+  FaRec("f000000",   "filler",   Rep("acgtgcatgactagctagcatgcatgcaacgttgca", 56), 34, "LF"),
   FaRec("a000000",   "",         "acgtac",       1, "LF"),
   FaRec("b>000000",  "x>y >z>",  "ttgaccgga",    2, "LF"),
   FaRec("c000000",   "two words","ACGTNacgt",    3, "CRLF"),
